@@ -134,6 +134,14 @@ Theorem bc_calls_shape : forall nl k i b a,
   map (fun x => (x, i, b, a)) (seq 1 (if Nat.eqb k 0 || (nl <? k)%nat then nl else k)).
 Proof. exact bc_calls_shape_pf. Qed.
 
+(* results, stored content and change callbacks of a step do not depend on how many listeners
+   are registered or on which of them vetoes, only on whether one does: in particular a store
+   without any listener behaves like one with listeners that all accept *)
+Theorem results_independent_of_listeners : forall pfx newid c st (m : smap) o o',
+  op_sim o o' ->
+  bstep pfx st o = bstep pfx st o' /\ mstep newid st o = mstep newid st o' /\ spec_step c m o = spec_step c m o'.
+Proof. exact results_independent_of_listeners_pf. Qed.
+
 (* ---- locking: in EVERY execution of the transaction LTS (any step function, any
    lock key function: identity = keylock per id, constant = one global RWMutex),
    transactions sharing a lock key are open together only if all of them read ---- *)
